@@ -108,13 +108,67 @@ func emptyKind(t reflect.Type, o *Opts) byte {
 	return 0
 }
 
-// Accepts reports whether the canonical item it is the encoding of some value
-// of Go type t under the documented decoding rules (nil = yes).
-func Accepts(it *Item, t reflect.Type, o *Opts) error {
-	return accepts(it, t, fieldTags{}, o)
+// node is one encoded value seen shallowly: its header and its full encoding.
+type node struct {
+	h   Hdr
+	enc []byte
 }
 
-func accepts(it *Item, t reflect.Type, tg fieldTags, o *Opts) error {
+func (n node) isList() bool    { return n.h.Kind == 'l' }
+func (n node) content() []byte { return n.enc[n.h.Tag:] }
+func (n node) isEmpty() bool   { return n.h.Kind != 'b' && n.h.Size == 0 }
+
+// str returns the byte string a string-kind node denotes.
+func (n node) str() []byte {
+	if n.h.Kind == 'b' {
+		return n.enc[:1]
+	}
+	return n.content()
+}
+
+// split cuts b into consecutive values by their headers (shallow).
+func split(b []byte) ([]node, error) {
+	var out []node
+	for len(b) > 0 {
+		h, err := Header(b)
+		if err != nil {
+			return nil, err
+		}
+		tot := h.Tag + h.Size
+		out = append(out, node{h, b[:tot]})
+		b = b[tot:]
+	}
+	return out, nil
+}
+
+// AcceptsEnc reports whether enc is exactly the canonical encoding of some
+// value of Go type t under the documented decoding rules (nil = yes). The
+// walk is directed by the type: positions of raw-value type are opaque beyond
+// their own header (the mapping documents that their content is not examined),
+// positions of interface type must be canonical all the way down.
+func AcceptsEnc(enc []byte, t reflect.Type, o *Opts) error {
+	h, err := Header(enc)
+	if err != nil {
+		return err
+	}
+	if h.Tag+h.Size != uint64(len(enc)) {
+		return ErrTrailing
+	}
+	return accepts(node{h, enc}, t, fieldTags{}, o)
+}
+
+// AcceptsPrefix is AcceptsEnc for the first value of b; it returns the length
+// of that value.
+func AcceptsPrefix(b []byte, t reflect.Type, o *Opts) (int, error) {
+	h, err := Header(b)
+	if err != nil {
+		return 0, err
+	}
+	n := int(h.Tag + h.Size)
+	return n, accepts(node{h, b[:n]}, t, fieldTags{}, o)
+}
+
+func accepts(it node, t reflect.Type, tg fieldTags, o *Opts) error {
 	if o != nil {
 		if o.Raw[t] {
 			return nil
@@ -124,7 +178,11 @@ func accepts(it *Item, t reflect.Type, tg fieldTags, o *Opts) error {
 				return err
 			}
 			if x := o.Extra[t]; x != nil {
-				return x(it)
+				full, err := Decode(it.enc)
+				if err != nil {
+					return err
+				}
+				return x(full)
 			}
 			return nil
 		}
@@ -132,68 +190,76 @@ func accepts(it *Item, t reflect.Type, tg fieldTags, o *Opts) error {
 	k := t.Kind()
 	switch {
 	case t == bigPtrT || t == bigT:
-		if it.IsList {
+		if it.isList() {
 			return ErrWantString
 		}
-		if len(it.Str) > 0 && it.Str[0] == 0 {
+		if s := it.str(); len(s) > 0 && s[0] == 0 {
 			return ErrLeadingZero
 		}
 		return nil
 	case isUintKind(k):
-		if it.IsList {
+		if it.isList() {
 			return ErrWantString
 		}
-		if len(it.Str) > t.Bits()/8 {
+		s := it.str()
+		if len(s) > t.Bits()/8 {
 			return ErrIntTooLong
 		}
-		if len(it.Str) > 0 && it.Str[0] == 0 {
+		if len(s) > 0 && s[0] == 0 {
 			return ErrLeadingZero
 		}
 		return nil
 	case k == reflect.Bool:
-		if it.IsList {
+		if it.isList() {
 			return ErrWantString
 		}
-		if len(it.Str) > 1 {
+		s := it.str()
+		if len(s) > 1 {
 			return ErrIntTooLong
 		}
-		if len(it.Str) == 1 && it.Str[0] == 0 {
+		if len(s) == 1 && s[0] == 0 {
 			return ErrLeadingZero
 		}
-		if len(it.Str) == 1 && it.Str[0] != 1 {
+		if len(s) == 1 && s[0] != 1 {
 			return ErrBadBool
 		}
 		return nil
 	case k == reflect.String:
-		if it.IsList {
+		if it.isList() {
 			return ErrWantString
 		}
 		return nil
 	case (k == reflect.Slice || k == reflect.Array) && t.Elem().Kind() == reflect.Uint8 && !isWire(t.Elem(), o):
-		if it.IsList {
+		if it.isList() {
 			return ErrWantString
 		}
-		if k == reflect.Array && len(it.Str) != t.Len() {
+		if k == reflect.Array && len(it.str()) != t.Len() {
 			return ErrArrayLen
 		}
 		return nil
 	case k == reflect.Slice:
-		if !it.IsList {
+		if !it.isList() {
 			return ErrWantList
 		}
-		for _, c := range it.List {
+		kids, err := split(it.content())
+		if err != nil {
+			return err
+		}
+		for _, c := range kids {
 			if err := accepts(c, t.Elem(), fieldTags{}, o); err != nil {
 				return err
 			}
 		}
 		return nil
 	case k == reflect.Array:
-		if !it.IsList {
+		if !it.isList() {
 			return ErrWantList
 		}
-		// elements are decoded in order; the first ill-typed one fails before the
-		// count is looked at
-		for i, c := range it.List {
+		kids, err := split(it.content())
+		if err != nil {
+			return err
+		}
+		for i, c := range kids {
 			if i >= t.Len() {
 				return ErrTooMany
 			}
@@ -201,15 +267,18 @@ func accepts(it *Item, t reflect.Type, tg fieldTags, o *Opts) error {
 				return err
 			}
 		}
-		if len(it.List) < t.Len() {
+		if len(kids) < t.Len() {
 			return ErrTooFew
 		}
 		return nil
 	case k == reflect.Struct:
-		if !it.IsList {
+		if !it.isList() {
 			return ErrWantList
 		}
-		rest := it.List
+		rest, err := split(it.content())
+		if err != nil {
+			return err
+		}
 		for i := 0; i < t.NumField(); i++ {
 			f := t.Field(i)
 			if f.PkgPath != "" {
@@ -246,15 +315,13 @@ func accepts(it *Item, t reflect.Type, tg fieldTags, o *Opts) error {
 			// empty value stands for nil
 			switch emptyKind(t.Elem(), o) {
 			case 's':
-				if it.IsList {
+				if it.isList() {
 					return ErrWantString
 				}
-				return nil
 			case 'l':
-				if !it.IsList {
+				if !it.isList() {
 					return ErrWantList
 				}
-				return nil
 			}
 			return nil
 		}
@@ -263,7 +330,8 @@ func accepts(it *Item, t reflect.Type, tg fieldTags, o *Opts) error {
 		if t.NumMethod() != 0 {
 			return ErrUnsupported
 		}
-		return nil
+		_, err := Decode(it.enc)
+		return err
 	}
 	return ErrUnsupported
 }
